@@ -201,7 +201,9 @@ def run(ctx):
         if ctx.thorough():
             cinf3 = consts(3, 1, [], cancel="TRUE", allorders="FALSE")
             cinf3["Totals"] = "<- TotalsInf"
-            model(ctx, cinf3, props=["CancelStops"], timeout=5000)
+            # three blocks: safety only (CancelBounded etc.); the liveness check CancelStops on three
+            # blocks with an infinite source did not finish within 45 minutes, it stays on two blocks
+            model(ctx, cinf3, props=[], timeout=5000)
         if ctx.thorough():
             # (capacity 2 here took over 40 minutes on a loaded machine)
             model(ctx, consts(3, 1, [0, 2], cancel="TRUE", fail="FailSmall", allorders="FALSE"), timeout=5000)
@@ -214,7 +216,7 @@ def run(ctx):
         model(ctx, consts(2, 2, [0, 1, 2, 3, 5]))
         model(ctx, consts(2, 1, [0, 1, 2, 3]))
         if ctx.thorough():
-            model(ctx, consts(3, 2, [0, 1, 3], allorders="FALSE"), timeout=5000)
+            model(ctx, consts(3, 2, [0, 1, 3], allorders="FALSE"), liveness=False, timeout=5000)   # safety only at this size
             model(ctx, consts(3, 1, [0, 1, 2], allorders="TRUE"), timeout=5000)
             files = cover_replay(ctx, 2, 2, [0, 1, 3, 5], "FALSE", "NoFail")
             cfgs = random_configs(ctx, [2, 3, 4], [1, 2, 4], 6)
